@@ -98,6 +98,13 @@ func (f *capConn) peekLen() int {
 	return f.buf.Len()
 }
 
+// peek returns a copy of everything written so far without consuming it (a packet may be half written)
+func (f *capConn) peek() []byte {
+	f.mu.Lock()
+	defer f.mu.Unlock()
+	return append([]byte(nil), f.buf.Bytes()...)
+}
+
 // decode the packets of a captured byte string with the real reader
 func decodeAll(b []byte) []*packet.TransferPacket {
 	if len(b) == 0 {
@@ -241,8 +248,16 @@ func newWorld(c *caseIn) (*world, error) {
 		if err != nil {
 			return w, fmt.Errorf("CreateConnection: %v", err)
 		}
-		if err := fx.Session.HandlePacket(&types.StreamPacket{ConnectionID: conn.ID, Packet: handshakePkt(0, "new-client"), Timestamp: time.Now()}); err != nil {
-			return w, fmt.Errorf("handshake: %v", err)
+		// what a successful handshake leaves behind (packet_handler_handshake.go): a registered control connection bound to the
+		// client id by ClientRegistry.UpdateAuth.  Done through the session API instead of a handshake packet because
+		// handleHandshake also spawns `go pushConfigToClient`, which would race with the world setup below.
+		cl, err := fx.Cloud.GenerateAnonymousCredentials()
+		if err != nil {
+			return w, fmt.Errorf("GenerateAnonymousCredentials: %v", err)
+		}
+		fx.Session.RegisterControlConnection(session.NewControlConnection(conn.ID, conn.Stream, fc.RemoteAddr(), "tcp"))
+		if err := fx.Session.UpdateControlConnectionAuth(conn.ID, cl.ID, ""); err != nil {
+			return w, fmt.Errorf("UpdateControlConnectionAuth: %v", err)
 		}
 		cc := fx.Session.GetControlConnection(conn.ID)
 		if cc == nil || cc.ClientID == 0 || !cc.Authenticated {
@@ -577,13 +592,22 @@ func runStep(w *world, s *stepSpec, before *stepOut) stepOut {
 	}
 	var delivered []deliv
 	var toSender []*packet.TransferPacket
+	processed := make([]int, len(w.conn))
+	lastLen := make([]int, len(w.conn))
 	collect := func() {
 		for ci := 1; ci < len(w.conn); ci++ {
-			if w.conn[ci].peekLen() == 0 {
+			// complete packets only: the writer emits a packet in several Write calls, so the buffer is decoded from its
+			// start every time it has grown and only packets not seen before are processed
+			if n := w.conn[ci].peekLen(); n == 0 || n == lastLen[ci] {
 				continue
+			} else {
+				lastLen[ci] = n
 			}
 			own := w.conn[ci] == sconn && sconn != nil
-			for _, p := range decodeAll(w.conn[ci].take()) {
+			pkts := decodeAll(w.conn[ci].peek())
+			for pi := processed[ci]; pi < len(pkts); pi++ {
+				p := pkts[pi]
+				processed[ci] = pi + 1
 				if own {
 					// written to the sender's own connection: not a delivery to another client (a client that is the target
 					// side of its own default SOCKS mapping gets its DNS request forwarded to itself; answer it all the same)
@@ -670,10 +694,18 @@ loop:
 	o.DiscM, o.DiscC, o.DiscD, o.SecretLeak = []int64{}, []int64{}, []int64{}, []int64{}
 	if sconn != nil {
 		var text strings.Builder
-		for _, p := range append(toSender, decodeAll(sconn.take())...) {
+		if len(toSender) == 0 {
+			toSender = decodeAll(sconn.take()) // a connection that is not a client's control connection (fresh / pending)
+		}
+		var all strings.Builder
+		for _, p := range toSender {
 			if p.CommandPacket != nil {
-				text.WriteString(p.CommandPacket.CommandBody)
-				text.WriteString("\n")
+				all.WriteString(p.CommandPacket.CommandBody)
+				all.WriteString("\n")
+				if p.PacketType.IsCommandResp() { // disclosures are read off the responses; a command forwarded to the sender itself is not one
+					text.WriteString(p.CommandPacket.CommandBody)
+					text.WriteString("\n")
+				}
 				if p.PacketType.IsCommandResp() && (p.CommandPacket.CommandType == packet.DNSResolve || p.CommandPacket.CommandType == packet.DNSQuery) &&
 					strings.Contains(p.CommandPacket.CommandBody, "203.0.113.7") || strings.Contains(p.CommandPacket.CommandBody, "CQk=") {
 					o.Answered = true
@@ -685,7 +717,7 @@ loop:
 			if o.Ok && strings.Contains(t, `"`+id+`"`) {
 				o.DiscM = append(o.DiscM, int64(i))
 			}
-			if w.mapSec[i] != "" && strings.Contains(t, w.mapSec[i]) {
+			if w.mapSec[i] != "" && strings.Contains(all.String(), w.mapSec[i]) {
 				o.SecretLeak = append(o.SecretLeak, int64(i))
 			}
 		}
